@@ -338,7 +338,7 @@ class CFG:
         return out
 
 
-def path_conditions(cfg: "CFG", n: int) -> List[Tuple[ast.expr, bool]]:
+def path_conditions(cfg: "CFG", n: int, loop_exits: bool = True) -> List[Tuple[ast.expr, bool]]:
     """branch_conditions(n) without the noise: constant tests (`while True`) and the negative
     side of guards whose body only raises (`if too_short: raise …` does not *select* what
     follows, it rejects)."""
@@ -356,6 +356,8 @@ def path_conditions(cfg: "CFG", n: int) -> List[Tuple[ast.expr, bool]]:
         test = hn.expr
         if isinstance(test, ast.Constant):
             continue
+        if not loop_exits and hn.kind == "while" and via_f:
+            continue  # having left a search loop is not a decision about what follows
         st = hn.stmt
         if via_f and isinstance(st, ast.If) and st.body and all(
                 isinstance(b, ast.Raise) for b in st.body) and not st.orelse:
